@@ -73,19 +73,45 @@ class ContractBroken(AssertionError):
 
 # ------------------------------------------------------------------ model
 def _read_element_base(core):
-    """The element_base literal, re-read from the source text (never the live dict)."""
+    """(table, route, note).  First choice: the element_base literal re-read from the source text of core.py
+    (never the live dict).  Source text is private to the library: when the literal is not found there
+    (moved, generated, split) the public module attribute core.element_base is the data - a copy taken now,
+    before any workload ran.  The table is a literal, not a mechanism: the lookup routes, caches, restorers
+    and change_table that the property is about do not produce it."""
     import ast
-    tree = ast.parse(open(core.__file__).read())
-    for node in tree.body:
-        if isinstance(node, ast.Assign) and any(getattr(t, 'id', None) == 'element_base' for t in node.targets):
-            return ast.literal_eval(node.value)
-    raise LookupError('element_base literal not found in %s' % core.__file__)
+    why = ''
+    try:
+        tree = ast.parse(open(core.__file__.replace('.pyc', '.py')).read())
+        for node in tree.body:
+            if isinstance(node, ast.Assign) and any(getattr(t, 'id', None) == 'element_base' for t in node.targets):
+                base = ast.literal_eval(node.value)
+                _validate_element_base(base)
+                return base, 'source', 'element_base literal read with ast from the source text of core.py'
+        why = 'no top-level literal assignment to element_base in %s' % core.__file__
+    except Exception as exc:  # noqa - refactored source: fall back to the public data
+        why = '%s: %s' % (type(exc).__name__, str(exc)[:120])
+    live = getattr(core, 'element_base', None)
+    if not isinstance(live, dict) or not live:
+        raise LookupError('element_base: source route failed (%s) and core.element_base is not a table' % why)
+    base = {Z: (v[0], v[1], list(v[2]), list(v[3])) for Z, v in live.items()}
+    _validate_element_base(base)
+    return base, 'data', ('source-text route not available (%s); the public module attribute core.element_base '
+                          '(copied at setup) is the key model' % why)
+
+
+def _validate_element_base(base):
+    if not isinstance(base, dict) or not base:
+        raise ValueError('element_base is not a non-empty dict')
+    for Z, v in base.items():
+        if not (isinstance(Z, int) and len(v) == 4 and isinstance(v[0], str) and isinstance(v[1], str)
+                and all(isinstance(q, int) for q in list(v[2]) + list(v[3]))):
+            raise ValueError('unexpected element_base row %r: %r' % (Z, v))
 
 
 class Model(object):
     def __init__(self, core):
         from ..ref.masses import MassModel
-        base = _read_element_base(core)
+        base, self.route, self.route_note = _read_element_base(core)
         self.name = {Z: v[0].lower() for Z, v in base.items()}
         self.sym = {Z: v[1] for Z, v in base.items()}
         self.ions = {Z: tuple(sorted(v[2] + v[3])) for Z, v in base.items()}
@@ -114,14 +140,32 @@ def _broken(contract, text):
 
 
 def _owner_ok(table, atom):
-    """atom (Element or Isotope) is the object that *table* itself holds."""
+    """atom (Element or Isotope) is the object that *table* itself holds.  Looked at in the table's own
+    caches where they have the known (private) layout - independent of the lookup methods - and through plain
+    public indexing (table[Z], element[A]; neither carries a contract) where they do not."""
     core = _s['core']
     base = atom.element if isinstance(atom, core.Isotope) else atom
+    routes = _s['owner_routes']
     try:
-        if table._element.get(base.number) is not base:
-            return False
-        if isinstance(atom, core.Isotope) and base._isotopes.get(atom.isotope) is not atom:
-            return False
+        held = getattr(table, '_element', None)
+        if isinstance(held, dict):
+            routes['table._element'] += 1
+            if held.get(base.number) is not base:
+                return False
+        else:
+            routes['table[Z]'] += 1
+            if table[base.number] is not base:
+                return False
+        if isinstance(atom, core.Isotope):
+            isos = getattr(base, '_isotopes', None)
+            if isinstance(isos, dict):
+                routes['element._isotopes'] += 1
+                if isos.get(atom.isotope) is not atom:
+                    return False
+            else:
+                routes['element[A]'] += 1
+                if base[atom.isotope] is not atom:
+                    return False
     except Exception:
         return False
     return True
@@ -131,7 +175,11 @@ def ionset_returns_the_cached_ion_of_that_charge(self, charge, result):
     c = _s['evals']
     c['IonSet.__getitem__'] += 1
     core = _s['core']
-    owner = self.element_or_isotope
+    owner = getattr(self, 'element_or_isotope', None)
+    if owner is None:
+        # the IonSet keeps its owner elsewhere (private layout): judge with the owner the ion itself reports
+        _s['evals']['IonSet.__getitem__.owner_from_result'] += 1
+        owner = getattr(result, 'element', None)
     if type(result) is not core.Ion:
         return _broken('IonSet.__getitem__', '%r.ion[%r] returned %r' % (owner, charge, result))
     if result.charge != charge or result.element is not owner:
@@ -218,7 +266,8 @@ def isotope_returns_the_atom_the_string_denotes(self, input, result):
         return _broken('PeriodicTable.isotope', 'isotope(%r) returned %r' % (input, result))
     if isinstance(result, core.Isotope):
         el = result.element
-        alias = [result.__dict__[k] for k in ('symbol', 'name') if k in result.__dict__]    # D/T
+        # D/T: an isotope that reports another symbol / name than its element
+        alias = [v for v, w in ((result.symbol, el.symbol), (result.name, el.name)) if v != w]
         ok = _names_and_number(input, alias, 0) or _names_and_number(input, (el.symbol, el.name), result.isotope)
     else:
         ok = _names_and_number(input, (result.symbol, result.name), 0)
@@ -279,27 +328,81 @@ def setup(ctx):
     _s['isotopes'] = {}      # variant -> {Z: [A]} when it differs from the model
     _s['ctx'] = ctx
 
-    def ens(cond):
-        return icontract.ensure(cond, error=ContractBroken)
+    _s['owner_routes'] = Counter()
+    _s['missing_contracts'] = set()
+    M = _s['model']
+    ctx.info['key_model_route'] = M.route
+    ctx.count('reference.route.element_base.' + M.route)
+    ctx.note('key model: %s' % M.route_note)
 
-    core.IonSet.__getitem__ = ens(ionset_returns_the_cached_ion_of_that_charge)(core.IonSet.__getitem__)
-    core.PeriodicTable.symbol = ens(symbol_returns_the_atom_with_that_symbol)(core.PeriodicTable.symbol)
-    core.PeriodicTable.name = ens(name_returns_the_atom_with_that_name)(core.PeriodicTable.name)
-    core.PeriodicTable.isotope = ens(isotope_returns_the_atom_the_string_denotes)(core.PeriodicTable.isotope)
-    core._make_element = ens(make_element_restores_that_element)(core._make_element)
-    core._make_isotope = ens(make_isotope_restores_that_isotope)(core._make_isotope)
-    core._make_ion = ens(make_ion_restores_that_ion)(core._make_ion)
-    core._make_isotope_ion = ens(make_isotope_ion_restores_that_isotope_ion)(core._make_isotope_ion)
+    def attach(owner, attr, cond, params, name, private=False):
+        """Postcondition on owner.attr.  icontract.ensure when the function still has the parameter names the
+        condition is written for; a positional *args/**kw wrapper when the signature changed (a call whose
+        arguments do not have the expected form passes through un-judged and is counted); nothing when the
+        function is gone (private restorers may be renamed / merged): `anchor_missing.contract.<name>` then
+        waives the requirement on that contract."""
+        import functools
+        import inspect
+        orig = owner.__dict__.get(attr) if isinstance(owner, type) else getattr(owner, attr, None)
+        if not callable(orig) or getattr(orig, '__code__', None) is None:
+            _s['missing_contracts'].add(name)
+            ctx.count('anchor_missing.contract.' + name)
+            ctx.note('%s%s not found as a Python function (refactored source?): no postcondition attached, '
+                     'requirement waived; the identity sweep judges the same round trips from outside'
+                     % ('private ' if private else '', name))
+            return
+        try:
+            sig = list(inspect.signature(orig).parameters)
+        except (TypeError, ValueError):
+            sig = None
+        if sig == list(params):
+            setattr(owner, attr, icontract.ensure(cond, error=ContractBroken)(orig))
+            return
+        ctx.note('%s has parameters %r (expected %r): postcondition attached through a positional wrapper'
+                 % (name, sig, list(params)))
+
+        @functools.wraps(orig)
+        def judged(*args, **kw):
+            result = orig(*args, **kw)
+            vals = list(args) + list(kw.values())
+            if len(vals) != len(params):
+                _s['evals'][name + '.unrecognised_call'] += 1
+                return result
+            if not cond(*vals, result=result):
+                raise ContractBroken('postcondition on %s failed' % name)
+            return result
+        setattr(owner, attr, judged)
+
+    attach(core.IonSet, '__getitem__', ionset_returns_the_cached_ion_of_that_charge, ('self', 'charge'),
+           'IonSet.__getitem__')
+    attach(core.PeriodicTable, 'symbol', symbol_returns_the_atom_with_that_symbol, ('self', 'input'),
+           'PeriodicTable.symbol')
+    attach(core.PeriodicTable, 'name', name_returns_the_atom_with_that_name, ('self', 'input'), 'PeriodicTable.name')
+    attach(core.PeriodicTable, 'isotope', isotope_returns_the_atom_the_string_denotes, ('self', 'input'),
+           'PeriodicTable.isotope')
+    attach(core, '_make_element', make_element_restores_that_element, ('table', 'Z'), '_make_element', private=True)
+    attach(core, '_make_isotope', make_isotope_restores_that_isotope, ('table', 'Z', 'n'), '_make_isotope', private=True)
+    attach(core, '_make_ion', make_ion_restores_that_ion, ('table', 'Z', 'c'), '_make_ion', private=True)
+    attach(core, '_make_isotope_ion', make_isotope_ion_restores_that_isotope_ion, ('table', 'Z', 'n', 'c'),
+           '_make_isotope_ion', private=True)
 
     reach = Reach()
-    reach.watch(core.Element.__reduce__, 'Element.__reduce__')
-    reach.watch(core.Isotope.__reduce__, 'Isotope.__reduce__')
-    reach.watch(core.Ion.__reduce__, 'Ion.__reduce__')
-    reach.watch(core.change_table, 'change_table')
-    reach.watch(core.PeriodicTable.__iter__, 'PeriodicTable.__iter__')
-    reach.watch(core.Element.__iter__, 'Element.__iter__')
-    reach.watch(core.Element.add_isotope, 'Element.add_isotope')
-    reach.watch(core.define_elements, 'define_elements')
+    for owner, attr, label in ((core.Element, '__reduce__', 'Element.__reduce__'),
+                               (core.Isotope, '__reduce__', 'Isotope.__reduce__'),
+                               (core.Ion, '__reduce__', 'Ion.__reduce__'),
+                               (core, 'change_table', 'change_table'),
+                               (core.PeriodicTable, '__iter__', 'PeriodicTable.__iter__'),
+                               (core.Element, '__iter__', 'Element.__iter__'),
+                               (core.Element, 'add_isotope', 'Element.add_isotope'),
+                               (core, 'define_elements', 'define_elements')):
+        fn = getattr(owner, attr, None)
+        if getattr(fn, '__code__', None) is None:
+            # e.g. pickling moved to another protocol method: the counter is evidence only
+            ctx.count('anchor_missing.reach.' + label)
+            ctx.note('%s is not a Python function of the library (refactored source?): reach counter is evidence '
+                     'only, requirement waived' % label)
+            continue
+        reach.watch(fn, label)
     reach.start()
     _s['reach'] = reach
     if not ctx.replay:
@@ -332,6 +435,11 @@ def finish(ctx):
     _s['reach'].export(ctx)
     for name in CONTRACTS:
         ctx.count('contract.' + name, _s['evals'].get(name, 0))
+    for name, n in _s['evals'].items():
+        if name not in CONTRACTS:
+            ctx.count('contract.' + name, n)
+    for route, n in _s['owner_routes'].items():
+        ctx.count('contract.owner_checked_through.' + route, n)
     ctx.info['iso_stride_quick'] = ISO_STRIDE_QUICK
     ctx.info['pickle_protocols'] = '0..%d' % pickle.HIGHEST_PROTOCOL
 
@@ -630,7 +738,7 @@ def check_element(ctx, case):
     # --- on-demand isotopes (bare table): created once, then found again
     for A in case.get('add', []):
         e0 = T[Z]
-        had = A in e0._isotopes
+        had = A in e0.isotopes
         ev.ctx.evaluated(2, 'add_isotope')
         new = e0.add_isotope(A)
         again = e0.add_isotope(A)
@@ -788,10 +896,23 @@ def check_element(ctx, case):
         ctx.violation('%s: a dict keyed by the atoms of %s does not survive pickling' % (variant, sym), route='dict-keys',
                       key=[Z, 0, 0], kind='not-identical')
     # cache holds only valid charges
-    ctx.evaluated(what='ionset-state')
-    if not set(e.ion.ionset) <= set(ions):
-        ctx.violation('%s: IonSet cache of %s holds charges %r outside %r' % (variant, sym, sorted(e.ion.ionset), ions),
-                      route='ionset-state', key=[Z, 0, 0], kind='cache-state')
+    cached = _ionset_cache(ctx, e)
+    if cached is not None:
+        ctx.evaluated(what='ionset-state')
+        if not set(cached) <= set(ions):
+            ctx.violation('%s: IonSet cache of %s holds charges %r outside %r' % (variant, sym, sorted(cached), ions),
+                          route='ionset-state', key=[Z, 0, 0], kind='cache-state')
+
+
+def _ionset_cache(ctx, e):
+    """The charges an element's IonSet has cached (attribute `ionset`, a dict keyed by charge), or None when
+    the cache is kept in another form: its layout is the library's business, the state check is then skipped
+    (a rejected charge that was cached would still show in the must-raise sweep, which asks twice)."""
+    cache = getattr(getattr(e, 'ion', None), 'ionset', None)
+    if not isinstance(cache, dict):
+        ctx.count('skipped.ionset_state.cache_layout_unknown')
+        return None
+    return list(cache)
 
 
 def _bulk_same(ctx, variant, Z, route, bulk, back, n):
@@ -929,10 +1050,12 @@ def check_invalid(ctx, case):
             ev.must_raise('isotope.ion[q]', (Z, A, q), lambda: i.ion[q])
     for odd in ('1', None, 1.5, (1,), '+'):
         ev.must_raise('.ion[odd]', repr((sym, odd)), lambda: e.ion[odd])
-    ctx.evaluated(what='ionset-state')
-    if not set(e.ion.ionset) <= set(ions):
-        ctx.violation('%s: IonSet cache of %s holds rejected charges %r' % (variant, sym, sorted(e.ion.ionset)),
-                      route='ionset-state', key=[Z, 0, 0], kind='cache-state')
+    cached = _ionset_cache(ctx, e)
+    if cached is not None:
+        ctx.evaluated(what='ionset-state')
+        if not set(cached) <= set(ions):
+            ctx.violation('%s: IonSet cache of %s holds rejected charges %r' % (variant, sym, sorted(cached)),
+                          route='ionset-state', key=[Z, 0, 0], kind='cache-state')
 
 
 # ------------------------------------------------------------------ whole-table checks
@@ -980,16 +1103,24 @@ def check_table(ctx, case):
     ctx.info['census.' + variant] = [len(listed), n_iso, n_ion, n_isoion]
     # registry: the table is restorable by its name, and is not another table
     ctx.evaluated(2, 'registry')
-    if core.PRIVATE_TABLES.get(tname) is not T or core._get_table(tname) is not T:
+    get_table = getattr(core, '_get_table', None)       # private helper: used when present
+    if core.PRIVATE_TABLES.get(tname) is not T or (callable(get_table) and get_table(tname) is not T):
         ctx.violation('%s: PRIVATE_TABLES[%r] is not the table' % (variant, tname), route='registry', kind='registry')
     if public and (T is not core.PUBLIC_TABLE or core.default_table() is not T or tname != core.PUBLIC_TABLE_NAME):
         ctx.violation('public table is not core.PUBLIC_TABLE / default_table()', route='registry', kind='registry')
     if not public and core.default_table(T) is not T:
         ctx.violation('default_table(T) is not T', route='registry', kind='registry')
     ev.must_raise('PeriodicTable(existing name)', tname, lambda: core.PeriodicTable(tname))
-    ev.must_raise('_get_table(unknown)', tname + '?', lambda: core._get_table(tname + '?'))
-    ev.must_raise('pickle of unknown table', tname + '?',
-                  lambda: pickle.loads(pickle.dumps(T.Fe).replace(tname.encode(), (tname[:-1] + '?').encode())))
+    if callable(get_table):
+        ev.must_raise('_get_table(unknown)', tname + '?', lambda: get_table(tname + '?'))
+    else:
+        ctx.count('skipped.registry._get_table_absent')
+    blob = pickle.dumps(T.Fe)
+    forged = blob.replace(tname.encode(), (tname[:-1] + '?').encode())
+    if forged != blob:
+        ev.must_raise('pickle of unknown table', tname + '?', lambda: pickle.loads(forged))
+    else:       # the stream does not carry the table name as text: nothing to forge
+        ctx.count('skipped.registry.pickle_stream_without_table_name')
     # odd keys of the table
     for odd in (-1, 119, 120, 200, 1.5, 0.5, '1', '26', None, 'Fe', 'iron', (26,), 1e3, -0.5):
         ev.must_raise('T[odd]', repr(odd), lambda: T[odd])
